@@ -22,6 +22,8 @@ pub use crate::ops::{BlobDamage, BlobDamageKind};
 pub enum HOp {
     Plain(Op),
     CrashReopen { lazy: bool, remove_idx: bool, damage: Vec<BlobDamage> },
+    /// arm a one-shot failpoint: the n-th matching file operation from now on fails (short = bytes written before a write fails)
+    Fail { kind: FailKind, on_index: bool, nth: u16, eio: bool, short: Option<u16> },
 }
 
 #[derive(Clone, Debug, Serialize, Deserialize)]
@@ -41,7 +43,12 @@ pub fn harm_strategy() -> BoxedStrategy<HarmCase> {
     ];
     let dmg = (any::<u16>(), dk).prop_map(|(sel, kind)| BlobDamage { sel, kind });
     let crash = (prop::bool::weighted(0.3), any::<bool>(), prop::collection::vec(dmg, 1..3)).prop_map(|(lazy, remove_idx, damage)| HOp::CrashReopen { lazy, remove_idx, damage });
-    let op = prop_oneof![12 => op_strategy(&gen).prop_map(HOp::Plain), 1 => crash];
+    let fkind = prop_oneof![1 => Just(FailKind::Create), 1 => Just(FailKind::Open), 4 => Just(FailKind::Write), 2 => Just(FailKind::Sync)];
+    let fail = (fkind, prop::bool::weighted(0.3), 1u16..5, any::<bool>(), prop_oneof![2 => Just(None), 1 => (0u16..80).prop_map(Some), 1 => (80u16..5000).prop_map(Some)]).prop_map(|(kind, on_index, nth, eio, short)| {
+        let short = if kind == FailKind::Write { short } else { None };
+        HOp::Fail { kind, on_index, nth, eio, short }
+    });
+    let op = prop_oneof![24 => op_strategy(&gen).prop_map(HOp::Plain), 2 => crash, 1 => fail];
     let cfg = (cfg_strategy(&[1, 8, 33], true), any::<bool>(), prop::bool::weighted(0.2)).prop_map(|(mut c, v, ig)| {
         c.validate_data = v;
         c.ignore_corrupted = ig;
@@ -167,6 +174,9 @@ impl<'a> Harm<'a> {
         let evs = self.session.events_from(self.ev_pos);
         self.ev_pos += evs.len();
         for e in evs.iter().filter(|e| e.begin) {
+            if std::env::var("VERIF_TRACE").is_ok() {
+                eprintln!("  [step {}] {:?} {} off={} len={} injected={}", self.step, e.kind, e.path.file_name().and_then(|n| n.to_str()).unwrap_or(""), e.offset, e.len, e.injected);
+            }
             let is_blob = e.path.extension().map_or(false, |x| x == "blob");
             match e.kind {
                 vio::Kind::Create if is_blob => {
@@ -182,15 +192,19 @@ impl<'a> Harm<'a> {
                     // length at open time = length in the last snapshot (nothing but pearl writes in between;
                     // harness damage re-baselines the snapshot)
                     let len = self.prev.get(&e.path).map(|b| b.len() as u64).unwrap_or_else(|| std::fs::metadata(&e.path).map(|m| m.len()).unwrap_or(0));
-                    self.ends.entry(e.path.clone()).or_insert(len);
+                    // a new file object starts at the file's real length (a range reserved by a failed write of the
+                    // previous session is forgotten)
+                    self.ends.insert(e.path.clone(), len);
                 }
                 vio::Kind::Write if is_blob => {
                     let end = *self.ends.entry(e.path.clone()).or_insert(0);
                     if e.offset != end {
                         return self.fail("harm/non-append-write", format!("write of {} bytes at offset {} of {} whose end is {}", e.len, e.offset, e.path.display(), end));
                     }
-                    if !e.injected {
-                        self.ends.insert(e.path.clone(), end + e.len);
+                    // a write that fails (injected) keeps its reserved range: later records go behind it, never over it
+                    self.ends.insert(e.path.clone(), end + e.len);
+                    if e.injected {
+                        self.labels.insert("blob_write_failed".into());
                     }
                     self.stats.queries += 1;
                 }
@@ -368,6 +382,20 @@ pub fn run_harm(c: &HarmCase, dir: &Path, findings: &Findings) -> Result<CaseOut
             match op {
                 HOp::Plain(op) => h.plain(i, op).await,
                 HOp::CrashReopen { lazy, remove_idx, damage } => h.reopen(*lazy, *remove_idx, &[], damage).await,
+                HOp::Fail { kind, on_index, nth, eio, short } => {
+                    let k = match kind {
+                        FailKind::Create => vio::Kind::Create,
+                        FailKind::Open => vio::Kind::Open,
+                        FailKind::Write => vio::Kind::Write,
+                        FailKind::Sync => vio::Kind::Sync,
+                    };
+                    if session.failpoints().iter().any(|f| f.fired > 0) {
+                        h.labels.insert("fault_fired".into());
+                    }
+                    session.disarm_all();
+                    session.arm(vio::Failpoint { kind: k, ext: if *on_index { "index".into() } else { "blob".into() }, nth: *nth as u64, errno: if *eio { libc::EIO } else { libc::ENOSPC }, short: short.map(|s| s as u64), sticky: false, seen: 0, fired: 0 });
+                    continue;
+                }
             }
             if h.sut.is_none() {
                 break;
@@ -379,13 +407,16 @@ pub fn run_harm(c: &HarmCase, dir: &Path, findings: &Findings) -> Result<CaseOut
             h.check_events()?;
         }
         h.settle().await;
+        if session.failpoints().iter().any(|f| f.fired > 0) {
+            h.labels.insert("fault_fired".into());
+        }
         if let Some(s) = h.sut.take() {
             let _ = s.close().await;
         }
         h.check_events()?;
         h.compare_snapshots()?;
         let _ = &h.findings;
-        let nontrivial = (h.labels.contains("quarantine") || h.stats.reopens > 0) && h.labels.contains("new_blob");
+        let nontrivial = ((h.labels.contains("quarantine") || h.stats.reopens > 0) && h.labels.contains("new_blob")) || h.labels.contains("fault_fired");
         Ok(CaseOut { nontrivial, labels: h.labels.clone(), stats: h.stats.clone(), known_hits: h.known.clone(), weight: 1 })
     });
     vio::end_session(dir);
@@ -400,6 +431,7 @@ fn sample(c: &HarmCase) -> Value {
         .map(|o| match o {
             HOp::Plain(op) => render_ops(std::slice::from_ref(op)).pop().unwrap_or_default(),
             HOp::CrashReopen { lazy, remove_idx, damage } => format!("crash_reopen(lazy={},rm_idx={},{:?})", lazy, remove_idx, damage.iter().map(|d| format!("{:?}", d.kind)).collect::<Vec<_>>()),
+            HOp::Fail { kind, on_index, nth, eio, short } => format!("fail({:?},{},n={},{},short={:?})", kind, if *on_index { "index" } else { "blob" }, nth, if *eio { "EIO" } else { "ENOSPC" }, short),
         })
         .collect();
     json!({"cfg": format!("keylen={} validate_data={} ignore_corrupted={} defer_ms={:?} rt_workers={}", c.cfg.keylen, c.cfg.validate_data, c.cfg.ignore_corrupted, c.cfg.defer_ms, c.cfg.rt_workers), "ops": ops})
@@ -415,7 +447,7 @@ pub fn run(ctx: &RunCtx) -> PropResult {
     PropResult {
         report,
         level: "exploration",
-        rule: "proptest histories over ALL public calls (data ops, try_close/create/restore, force_update, *_in_background, offload, fsync, free, wait-idle), restarts with index damage, and crash-restarts in which blob files are damaged so that init quarantines them (cut inside a record header / body / the blob header, zeroed magic, flipped header byte; data validation on/off; quarantine or ignore). After EVERY step the bytes of every *.blob in the work dir and the corrupted dir are compared with the previous snapshot: earlier bytes must be a prefix of the current bytes, or the file sits byte-identical in the corrupted dir (then immutable); new blob files must carry an id never used by any file of either directory. From the I/O tap: every write to a *.blob starts exactly at the end implied by the earlier writes, no truncate/remove ever names a *.blob, renames only move a blob into the corrupted dir without overwriting, and at idle points a batch of every query kind is bracketed by zero write/create/truncate/rename/remove events. Non-trivial = a blob was created after a restart or a quarantine. distinct = FNV hash of the serialized case.".into(),
+        rule: "proptest histories over ALL public calls (data ops, try_close/create/restore, force_update, *_in_background, offload, fsync, free, wait-idle), restarts with index damage, one-shot injected I/O failures (n-th create / open / write / short write / sync on blob or index files, ENOSPC or EIO, hitting client calls, background tasks or a later init alike), and crash-restarts in which blob files are damaged so that init quarantines them (cut inside a record header / body / the blob header, zeroed magic, flipped header byte; data validation on/off; quarantine or ignore). After EVERY step the bytes of every *.blob in the work dir and the corrupted dir are compared with the previous snapshot: earlier bytes must be a prefix of the current bytes, or the file sits byte-identical in the corrupted dir (then immutable); new blob files must carry an id never used by any file of either directory. From the I/O tap: every write to a *.blob starts exactly at the end implied by the earlier writes (a failed write keeps its reserved range: nothing is ever written over it), no truncate/remove ever names a *.blob, renames only move a blob into the corrupted dir without overwriting, and at idle points a batch of every query kind is bracketed by zero write/create/truncate/rename/remove events. Non-trivial = a blob was created after a restart or a quarantine, or a failpoint fired. distinct = FNV hash of the serialized case.".into(),
         assumptions: {
             let mut a = common_assumptions();
             a.push("damage applied by the harness itself re-baselines the snapshot (it is the fault, not the system's doing)".into());
